@@ -11,6 +11,6 @@ mkdir -p .cache
     ocamlfind ocamlopt -w -a model.mli model.ml driver.ml -o driver; fi )
 ( cd harness && cp /repo/Cargo.lock Cargo.lock 2>/dev/null || true
   export CARGO_TARGET_DIR=/verif/.cache/target RUSTFLAGS="--cfg griddle_verif"
-  timeout 1200 cargo build --offline 2>&1 | grep -E "^(error|warning: unused)" -A8 | head -40; test ${PIPESTATUS[0]} -eq 0
-  timeout 1200 cargo build --offline --release 2>&1 | grep -E "^error" -A8 | head -40; test ${PIPESTATUS[0]} -eq 0 )
+  timeout 1200 cargo build --offline --features par,ser 2>&1 | grep -E "^(error|warning: unused)" -A8 | head -40; test ${PIPESTATUS[0]} -eq 0
+  timeout 1200 cargo build --offline --release --features par,ser 2>&1 | grep -E "^error" -A8 | head -40; test ${PIPESTATUS[0]} -eq 0 )
 echo BUILD-OK
